@@ -320,6 +320,15 @@ func firstPacketAF(r *rand.Rand, hdrLen int, big bool) *astits.PacketAdaptationF
 			a.StuffingLength = 0
 		}
 	}
+	if big && r.IntN(6) == 1 {
+		// more reserved bytes in the adaptation extension than any packet holds, also more than its 8 bit length can say
+		a.HasAdaptationExtensionField = true
+		if a.AdaptationExtensionField == nil {
+			a.AdaptationExtensionField = &astits.PacketAdaptationExtensionField{}
+		}
+		a.AdaptationExtensionField.ReservedLength = []int{184, 245, 250, 255, 256, 300, 512}[r.IntN(7)]
+		return a
+	}
 	if big && r.IntN(6) == 0 {
 		// more private data than any packet holds, also more than the 8 bit length can say: the call has to fail as a whole
 		a.HasTransportPrivateData = true
